@@ -1,4 +1,5 @@
-"""C12 - remaining containers are equivalent to their abstract models (part A: the plain containers).
+"""C12 - remaining containers are equivalent to their abstract models (part A: the plain containers; part B, props/C12B.py: Walker, TimeHeap,
+IndexedStorage, OnChangeMap, SubscriptionManager).
 
 One SeqUnit per (module, SUT): exhaustive TLC of the module, LTS tour + random walks on the real object
 (model -> code), recorded random histories validated by TLC (code -> model).  Modules with two SUTs
@@ -15,6 +16,11 @@ def _second(sub, module, sut, **kw):
 
 
 def units(ctx):
+    from props import C12B
+    return _part_a(ctx) + C12B.units(ctx)
+
+
+def _part_a(ctx):
     return [
         SeqUnit("containers", "Queue"),
         SeqUnit("containers", "ShrinkingMap", walks=(100, 40), traces=(60, 120)),
